@@ -13,6 +13,7 @@ simply executed symbolically, whatever its shape.
 from __future__ import annotations
 
 import ast
+import copy as _copy
 import re
 import typing as t
 import uuid as _uuid
@@ -35,7 +36,7 @@ LEVEL_TEXT = (
     "them; a text value reaches quote, and captured text leaves to_python, without a known non-identity library operation "
     "(case folding, trimming, padding, Unicode normalisation, (un)quoting, non-UTF-8 encoding) - an unknown operation is "
     "reported as not understood), fixed_digits pads to_url with zfill(n) and makes to_python refuse every other length, and the instance regex "
-    "(incl. length options, signed, any-items with regex metacharacters) accepts the canonical text of sample values; "
+    "(incl. each length option of the string converter alone and combined, signed, any-items with regex metacharacters) accepts the canonical text of sample values; "
     "(R4.3) for sample rules over the whole converter set MapAdapter.build returns, piece by piece in rule order, the "
     "percent-encoded literal text and each variable's own converter.to_url(value), a default for a variable of the rule "
     "is rendered through that converter's to_url, domain and path pieces are not mixed, defaulted variables need not be "
@@ -50,12 +51,19 @@ LEVEL_TEXT = (
     "force_external), the host is the rule's domain part + server name (subdomain rules, Subdomain / Submount factories, "
     "host matching), and among rules of one endpoint a canonical rule is built before an alias, a rule that renders every given value in its "
     "path before a shorter one (also when a value equals the shorter rule's default), and otherwise the rule whose defaults "
-    "equal the given values - also in the host-matching fallback, when the adapter is bound to another host than the rules. NOT "
+    "equal the given values - also in the host-matching fallback, when the adapter is bound to another host than the rules; a rule "
+    "wrapped in Submount / Subdomain / EndpointPrefix is built (and, R4.4, matched) with the host, subdomain, defaults and alias "
+    "flag it was written with - a factory changes only what it is there to change; (R4.8) a match is an observation: for sample "
+    "rules with defaults and converters (also inside Submount) the options every rule was constructed with (the attributes named "
+    "like the parameters of its __init__: defaults, methods, host, ...) are the same after MapAdapter.match as before, the mapping "
+    "handed back is none of the rules' own objects, a build for other values afterwards returns the URL of those values and a "
+    "second match returns what the first did. NOT "
     "decided: that each compiled part regex / the state machine accepts exactly the text to_url produces for every value "
     "(regex language inclusion over formatted numbers, Unicode, percent-decoding by the server), rule selection among "
     "overlapping rules, path converters on the match side, the URL scheme, whether a query is "
     "attached under append_unknown=False or for empty extras, the order of sorted parameters (sort_parameters), MultiDict "
-    "inputs, that AnyConverter.to_url refuses non-members (they are outside the domain), redirect behaviour (C12)."
+    "inputs, that AnyConverter.to_url refuses non-members (they are outside the domain), that a converter's regex refuses text outside "
+    "its options (C03), that Rule.empty() carries merge_slashes / websocket (options outside C04's configurations), redirect behaviour (C12)."
 )
 TRUSTED = [
     "CPython ast / re (re._parser) / urllib.parse.unquote applied to constants of the source and of the scenarios",
@@ -68,6 +76,7 @@ ASSUMPTIONS = [
     "on the match side a symbolic path segment is taken to be accepted by the part regex it is tried against and to differ from every literal segment (regex language inclusion is not decided)",
     "container subclasses of the package (ImmutableDict) behave like the plain container for reads and .copy()",
     "functions of routing/matcher.py that only register / sort rules cannot influence what build returns (they are executed best-effort during map construction)",
+    "R4.8: what a rule was constructed with is what it keeps under the names of its class's __init__ parameters (defaults, methods, host, ...); other attributes (caches, compiled parts) may change during a match",
 ]
 
 RESERVED_IN_PATH = "%?# "
@@ -222,8 +231,9 @@ class Env4:
     def make_rule(self, spec: tuple) -> t.Any:
         kind = spec[0]
         if kind == "rule":
-            return self.w.call(self.Rule, [spec[1]], dict(spec[2]))
-        if kind in ("Submount", "Subdomain"):
+            # the option values are copied: the analysed code may (wrongly) write into a mapping it was given
+            return self.w.call(self.Rule, [spec[1]], _copy.deepcopy(dict(spec[2])))
+        if kind in ("Submount", "Subdomain", "EndpointPrefix"):
             return self.w.call(self.factory(kind), [spec[1], [self.make_rule(s) for s in spec[2]]], {})
         raise AssertionError(kind)
 
@@ -403,6 +413,7 @@ def run(ctx: Ctx) -> None:
         "R4.5": "extra values do not alter the path (with and without append_unknown); the query follows one '?' and is urlencode (UTF-8) of exactly the non-None extra values, multi-values pairwise, with a safe set free of '&', '=', '+', '%', '#', space",
         "R4.6": "Map.default_converters binds default, string, any, path, int, float, uuid to converters of the matching kind",
         "R4.7": "built URL = script root + '/' + rule path (script_name '/', '/app', '/app/'; relative and external), host = domain part + server name, factories and host matching included; defaults select the rule",
+        "R4.8": "a match is an observation: it leaves every rule's options (defaults, ...) as they were, hands back a mapping of its own, and a build or match afterwards returns what it returns without the earlier match",
     }.items():
         ctx.rule(rid, text)
 
@@ -429,6 +440,7 @@ def run(ctx: Ctx) -> None:
     rule_build(ctx, repo, table_ok, harvest)
     rule_match(ctx, repo, table_ok, kinds)
     rule_assembly(ctx, repo, table_ok, harvest)
+    rule_history(ctx, repo, table_ok)
     rule_quoting(ctx, repo, sites)
 
 
@@ -460,7 +472,9 @@ _UUID_SAMPLE = str(_uuid.UUID("12345678-9abc-4def-8123-456789abcdef"))
 CONFIGS: dict[str, list[tuple[str, tuple, dict, list[str]]]] = {
     # name -> [(label, args, kwargs, canonical sample texts the regex has to accept)]
     "default": [("", (), {}, ["a", "a b;?#%é+=&", "é"]), ("length=3", (), {"length": 3}, ["abc", "a é"]), ("minlength=2, maxlength=4", (), {"minlength": 2, "maxlength": 4}, ["ab", "abcd"])],
-    "string": [("", (), {}, ["a", "a b;?#%é+=&"]), ("length=3", (), {"length": 3}, ["abc"]), ("minlength=2, maxlength=4", (), {"minlength": 2, "maxlength": 4}, ["ab", "abcd"])],
+    "string": [("", (), {}, ["a", "a b;?#%é+=&"]), ("length=3", (), {"length": 3}, ["abc"]), ("minlength=2, maxlength=4", (), {"minlength": 2, "maxlength": 4}, ["ab", "abcd"]),
+               # each length option on its own: the shortest and a long text of the documented range
+               ("minlength=2", (), {"minlength": 2}, ["ab", "abc", "a" * 40]), ("maxlength=3", (), {"maxlength": 3}, ["a", "ab", "abc"]), ("length=1", (), {"length": 1}, ["a", "é"])],
     "path": [("", (), {}, ["a", "a/b c/é", "x/y"])],
     "any": [("about, x.y", ("about", "x.y"), {}, ["about", "x.y"]), ("about, c?d e", ("about", "c?d e"), {}, ["about", "c?d e"])],
     "int": [("", (), {}, ["0", "42", "100000000000000000000"]), ("fixed_digits=4", (), {"fixed_digits": 4}, ["0042", "1234"]), ("signed=True", (), {"signed": True}, ["-42", "42"]),
@@ -805,6 +819,13 @@ MATCH_SCENARIOS: list[dict[str, t.Any]] = [
      "path": ["/t/", ("seg", "n"), "/"], "expect": {"n": ("int", "n")}, "endpoint": "ep8"},
     {"id": "submount", "needs": {"string"}, "rules": [("Submount", "/blog", [("rule", "/e/<string:slug>", {"endpoint": "ep6"})])],
      "path": ["/blog/e/", ("seg", "slug")], "expect": {"slug": ("text", "slug")}, "endpoint": "ep6"},
+    # the options of a rule wrapped in a factory are those it was written with: host rules under host matching
+    {"id": "host rule inside Submount", "needs": {"default"}, "map_kw": {"host_matching": True}, "bind": {"server_name": "api.example.org"},
+     "rules": [("Submount", "/sm", [("rule", "/h/<x>", {"endpoint": "ep9", "host": "api.example.org"}), ("rule", "/h/<x>", {"endpoint": "ep9b", "host": "www.example.org"})])],
+     "path": ["/sm/h/", ("seg", "x")], "expect": {"x": ("text", "x")}, "endpoint": "ep9"},
+    {"id": "static host rule inside EndpointPrefix and Subdomain", "needs": {"int"}, "map_kw": {"host_matching": True}, "bind": {"server_name": "example.org"},
+     "rules": [("EndpointPrefix", "p.", [("Subdomain", "sd", [("rule", "/g/<int:n>", {"endpoint": "ep10", "host": "example.org"})])])],
+     "path": ["/g/", ("seg", "n")], "expect": {"n": ("int", "n")}, "endpoint": "p.ep10"},
 ]
 _PY_FN = {"int": "builtins.int", "float": "builtins.float", "uuid": "uuid.UUID"}
 
@@ -820,8 +841,9 @@ def rule_match(ctx: Ctx, repo, present: set[str], kinds: dict[str, str]) -> None
         try:
 
             def scen(e: Env4, sc=sc):
-                m = e.make_map(sc["rules"])
-                bind = {k: (SEG(v[1]) if isinstance(v, tuple) else v) for k, v in sc.get("bind", {}).items()}
+                m = e.make_map(sc["rules"], **sc.get("map_kw", {}))
+                piece = lambda v: SEG(v[1]) if isinstance(v, tuple) else v  # noqa: E731
+                bind = {k: (concat(*[piece(x) for x in v]) if isinstance(v, list) else piece(v)) for k, v in sc.get("bind", {}).items()}
                 ad = _bind(e, m, bind)
                 e.w.best_effort_modules.clear()  # the matcher itself is what is analysed here
                 path = concat(*[SEG(p[1]) if isinstance(p, tuple) else p for p in sc["path"]])
@@ -859,7 +881,7 @@ def rule_match(ctx: Ctx, repo, present: set[str], kinds: dict[str, str]) -> None
                     "; ".join(facts) + f"; wanted {{{', '.join(f'{k}: {v[0]}(<text captured for {v[1]}>)' if v[0] != 'const' else f'{k}: {v[1]!r}' for k, v in sc['expect'].items())}}}", where, f"match {sid} values")
         except AnalysisError as exc:  # this scenario is not understood; others still count
             ctx.error(f"R4.4 match scenario {sid}: {exc}")
-    ctx.floor("R4.4", "match scenarios", n, 7)
+    ctx.floor("R4.4", "match scenarios", n, 9)
 
 
 # -- R4.7 -----------------------------------------------------------------------------------------------------------
@@ -953,7 +975,136 @@ def rule_assembly(ctx: Ctx, repo, present: set[str], harvest) -> None:
     run_case("other host: alias rule is not the one that is built", on_host(AL, "there.example"), other, "al", {"x": str}, {}, ["http://there.example/canon/", DYN("x")], hm, w_=where_sel)
     run_case("other host: rule that takes all the values is built", on_host(SP, "there.example"), other, "sp", {"x": str, "y": int}, {"append_unknown": False}, ["http://there.example/sp/", DYN("x"), "/", DYN("y", "int")], hm, w_=where_sel)
     run_case("other host: all values given, one equals a shorter rule's default", on_host(LG, "there.example"), other, "arch", {"year": 2024, "month": 5}, {}, ["http://there.example/archive/2024/05"], hm, w_=where_sel)
-    ctx.floor("R4.7", "assembly scenarios", n, 26)
+    # a rule factory is transparent for every option of the wrapped rule it does not itself set: the rule built from
+    # inside Submount / Subdomain / EndpointPrefix has the host, subdomain, defaults and alias flag it was written with
+    def wrapped(factory: str, rules: list[tuple]) -> tuple[list[tuple], str, str, dict]:
+        """(rules inside the factory, path prefix, endpoint prefix, extra bind options)"""
+        if factory == "Submount":
+            return [("Submount", "/sm", rules)], "/sm", "", {}
+        if factory == "Subdomain":
+            return [("Subdomain", "sd", rules)], "", "", {"subdomain": "sd"}
+        return [("EndpointPrefix", "p.", rules)], "", "p.", {}
+
+    HV = [("rule", "/h/<x>", {"endpoint": "h", "host": "<string(length=3):sub>.example.org"})]
+    HS = [("rule", "/g/<x>", {"endpoint": "g", "host": "example.org"})]
+    SV = [("rule", "/sub/<x>", {"endpoint": "s", "subdomain": "<string(length=2):lang>"})]
+    DF = [("rule", "/dd/<int(fixed_digits=3):n>/<s>", {"endpoint": "dd", "defaults": {"n": 7}})]
+    on_org = {"server_name": "example.org", "script_name": "/app"}
+    for fac in ("Submount", "Subdomain", "EndpointPrefix"):
+        rules, pp, ep, _ = wrapped(fac, HV)
+        run_case(f"host rule with a variable inside {fac} (host matching)", rules, on_org, ep + "h", {"x": str, "sub": str}, {}, ["http://", DYN("sub", "string", (), {"length": 3}), f".example.org/app{pp}/h/", DYN("x")], {"host_matching": True})
+    for fac in ("Submount", "EndpointPrefix"):
+        rules, pp, ep, _ = wrapped(fac, HS)
+        run_case(f"static host rule inside {fac} (host matching, same host)", rules, on_org, ep + "g", {"x": str}, {}, [f"/app{pp}/g/", DYN("x")], {"host_matching": True})
+        rules, pp, ep, _ = wrapped(fac, SV)
+        run_case(f"subdomain rule with a variable inside {fac}", rules, {"script_name": "/"}, ep + "s", {"x": str, "lang": str}, {}, ["http://", DYN("lang", "string", (), {"length": 2}), f".example.com{pp}/sub/", DYN("x")])
+    for fac in ("Subdomain", "EndpointPrefix"):
+        rules, pp, ep, bind = wrapped(fac, DF)
+        run_case(f"{fac} keeps rule defaults", rules, {"script_name": "/", **bind}, ep + "dd", {"s": str}, {}, [f"{pp}/dd/", DFLT("int", (), {"fixed_digits": 3}, 7), "/", DYN("s")])
+    rules, pp, ep, _ = wrapped("Submount", AL)
+    run_case("alias rule inside Submount is not the one that is built", rules, {"script_name": "/"}, "al", {"x": str}, {}, [f"{pp}/canon/", DYN("x")], w_=where_sel)
+    ctx.floor("R4.7", "assembly scenarios", n, 36)
+
+
+# -- R4.8 -----------------------------------------------------------------------------------------------------------
+
+HISTORY_SCENARIOS: list[dict[str, t.Any]] = [
+    {"id": "defaults and a variable", "needs": {"default"}, "rules": [("rule", "/en/<title>", {"endpoint": "pg", "defaults": {"lang": "en"}})],
+     "match": ["/en/", ("seg", "t")], "endpoint": "pg",
+     "build": {"lang": "en", "title": str}, "url": ["/en/", DYN("title")]},
+    {"id": "defaults and a variable inside Submount", "needs": {"int"}, "rules": [("Submount", "/sm", [("rule", "/<int:n>/k", {"endpoint": "q", "defaults": {"z": 1}}), ("rule", "/<int:n>/k/<int:z>", {"endpoint": "q"})])],
+     "match": ["/sm/", ("seg", "n"), "/k"], "endpoint": "q",
+     "build": {"n": int, "z": 1}, "url": ["/sm/", DYN("n", "int"), "/k"]},
+    {"id": "default for a rule variable", "needs": {"int", "default"}, "rules": [("rule", "/dd/<int:n>/<s>", {"endpoint": "dd", "defaults": {"n": 7}})],
+     "match": ["/dd/", ("seg", "n"), "/", ("seg", "s")], "endpoint": "dd",
+     "build": {"s": str}, "url": ["/dd/", DFLT("int", (), {}, 7), "/", DYN("s")]},
+]
+
+
+def _rule_options(repo, rule: Obj) -> list[str]:
+    """the names under which a rule object keeps what it was constructed with: parameters of its class's __init__."""
+    _, init = repo.lookup(rule.cls, "__init__")
+    if not isinstance(init, FuncInfo):
+        raise AnalysisError(f"{rule.cls.fq} has no __init__ in the package")
+    return [p for p in init.params[1:] if p in rule.attrs]
+
+
+def rule_history(ctx: Ctx, repo, present: set[str]) -> None:
+    """a match is an observation: the rules are afterwards what they were, the mapping handed back is the caller's
+    own, and what is built (and matched) afterwards does not depend on what was matched before."""
+    where = _fi_of(repo, "routing.matcher.StateMachineMatcher.match", "routing.map.MapAdapter.match")
+    where_b = _fi_of(repo, "routing.rules.Rule.suitable_for", "routing.map.MapAdapter._partial_build", "routing.map.MapAdapter.build")
+    n = 0
+    for sc in HISTORY_SCENARIOS:
+        if not sc["needs"] <= present:
+            continue
+        n += 1
+        sid = sc["id"]
+        try:
+
+            def scen(e: Env4, sc=sc):
+                w = e.w
+                m = e.make_map(sc["rules"])
+                ad = _bind(e, m, {})
+                w.best_effort_modules.clear()
+                rules = [r for r in w.iterate(w.call(w.getattr(m, "iter_rules"), [], {})) if isinstance(r, Obj)]
+                if not rules:
+                    raise AnalysisError("Map.iter_rules() yields no rule objects")
+                state = lambda: {f"rule {i} ({H._key(r.attrs.get('rule'))}).{a}": H._key(r.attrs[a]) for i, r in enumerate(rules) for a in _rule_options(repo, r)}  # noqa: E731
+                before = state()
+                path = concat(*[SEG(p[1]) if isinstance(p, tuple) else p for p in sc["match"]])
+                rv = w.call(w.getattr(ad, "match"), [path], {})
+                after = state()
+                shared = []
+                if isinstance(rv, tuple) and len(rv) == 2:
+                    for i, r in enumerate(rules):
+                        shared += [f"rule {i}.{a}" for a, v in r.attrs.items() if v is rv[1] and isinstance(v, (dict, list, set))]
+                vals = {k: (V(k + "2", v) if isinstance(v, type) else v) for k, v in sc["build"].items()}
+                try:
+                    url: t.Any = w.call(w.getattr(ad, "build"), [sc["endpoint"], dict(vals)], {})
+                except Raised as r_:
+                    url = r_.exc
+                try:
+                    rv2: t.Any = w.call(w.getattr(ad, "match"), [concat(*[SEG(p[1] + "3") if isinstance(p, tuple) else p for p in sc["match"]])], {})
+                except Raised as r_:
+                    rv2 = r_.exc
+                return {"rv": rv, "before": before, "after": after, "shared": shared, "url": url, "want": _expected(e, m, sc["url"], vals), "rv2": rv2, "state3": state()}
+
+            outs = paths(repo, scen)
+            good = [o for o in outs if o.kind == "return"]
+            if not good:
+                raise AnalysisError(f"the first match raises on every path: {sorted({_describe_exc(o.value).split('(')[0] for o in outs})}")
+            for o in good:
+                v = o.value
+                rv = v["rv"]
+                if not (isinstance(rv, tuple) and len(rv) == 2 and isinstance(rv[1], dict)):
+                    raise AnalysisError(f"match ({sid}) returned {show(rv)}")
+                under = f" under {[(c[0], c[1]) for c in o.conds]}" if o.conds else ""
+                changed = sorted(k for k in v["before"] if v["before"][k] != v["after"].get(k))
+                _ob(ctx, "R4.8", f"history ({sid}): a match leaves the options of every rule as they were", not changed,
+                    (f"changed by the match: {[(k, v['before'][k], v['after'].get(k)) for k in changed]}" if changed else f"{len(v['before'])} rule options compared before / after the match") + under, where, f"history {sid} rule state")
+                _ob(ctx, "R4.8", f"history ({sid}): the mapping a match returns is not an object the rule keeps", not v["shared"],
+                    (f"the returned mapping is the same object as {v['shared']}: what the caller (or the next match) writes into it changes the rule" if v["shared"] else "the returned mapping is none of the rules' attribute values") + under, where, f"history {sid} result fresh")
+                url = v["url"]
+                if isinstance(url, ExcObj):
+                    _ob(ctx, "R4.8", f"history ({sid}): a build after the match succeeds for other values", False, f"build raised {_describe_exc(url)} after a match of the same rule" + under, where_b, f"history {sid} build raises")
+                else:
+                    exp = merge_expected(v["want"])
+                    got = decoded(url)
+                    _ob(ctx, "R4.8", f"history ({sid}): a build after the match returns the URL of its own values", same_pieces(got, exp), f"built {show(url)}; wanted {show(exp)}" + under, where_b, f"history {sid} build after match")
+                rv2 = v["rv2"]
+                if isinstance(rv2, ExcObj):
+                    ok2, fact2 = False, f"the second match raised {_describe_exc(rv2)}"
+                else:
+                    k1 = H._key(rv)
+                    for p in sc["match"]:
+                        if isinstance(p, tuple):
+                            k1 = k1.replace(f"seg('{p[1]}')", f"seg('{p[1]}3')")
+                    ok2, fact2 = H._key(rv2) == k1, f"second match {show(rv2)}; first match {show(rv)}"
+                _ob(ctx, "R4.8", f"history ({sid}): a second match of the same path shape returns what the first did", ok2, fact2 + under, where, f"history {sid} second match")
+        except AnalysisError as exc:  # this scenario is not understood; others still count
+            ctx.error(f"R4.8 history scenario {sid}: {exc}")
+    ctx.floor("R4.8", "history scenarios", n, 3)
 
 
 # -- R4.1 -----------------------------------------------------------------------------------------------------------
